@@ -280,3 +280,67 @@ func TestVerifC02Race(t *testing.T) {
 	b, _ := json.Marshal(res)
 	os.WriteFile(outp, append(b, '\n'), 0o644)
 }
+
+// ShedderGroup: GetShedder(key) for a sequence of keys, each followed by one Allow (CPU idle, so
+// it is let in).  Reports, per call, the index of the first call that returned the same instance
+// and the in-flight count of that instance afterwards.
+type c02GroupCase struct {
+	ID   int   `json:"id"`
+	Keys []int `json:"keys"`
+}
+
+func TestVerifC02Group(t *testing.T) {
+	in := os.Getenv("VERIF_IN")
+	if in == "" {
+		t.Skip("VERIF_IN not set")
+	}
+	logx.Disable()
+	DisableLog()
+	stat.SetReporter(nil)
+	data, err := os.ReadFile(in)
+	if err != nil {
+		t.Fatal(err)
+	}
+	var cases []c02GroupCase
+	if err := json.Unmarshal(data, &cases); err != nil {
+		t.Fatal(err)
+	}
+	f, err := os.Create(os.Getenv("VERIF_OUT"))
+	if err != nil {
+		t.Fatal(err)
+	}
+	defer f.Close()
+	w := bufio.NewWriter(f)
+	defer w.Flush()
+	timex.SetFakeNow(time.Duration(1e12))
+	enabled.Set(true)
+	systemOverloadChecker = func(int64) bool { return false }
+	for _, c := range cases {
+		g := NewShedderGroup()
+		var seen []Shedder
+		var obs [][2]int64
+		for _, k := range c.Keys {
+			s := g.GetShedder("k" + string(rune('a'+k%26)) + string(rune('0'+k/26)))
+			idx := -1
+			for i, x := range seen {
+				if x == s {
+					idx = i
+					break
+				}
+			}
+			if idx < 0 {
+				idx = len(seen)
+			}
+			seen = append(seen, s)
+			s.Allow()
+			var fl int64 = -1
+			if as, ok := s.(nopCloser).Shedder.(*adaptiveShedder); ok {
+				fl = atomic.LoadInt64(&as.flying)
+			}
+			obs = append(obs, [2]int64{int64(idx), fl})
+		}
+		b, _ := json.Marshal(map[string]any{"id": c.ID, "obs": obs})
+		w.Write(b)
+		w.WriteByte('\n')
+	}
+}
